@@ -76,6 +76,136 @@ pub fn run(rep: &mut Rep) {
         let cell = std::cell::RefCell::new(&mut *rep);
         enumerate::explore(depth, 2, shard, nshards, |ch| body(&mut cell.borrow_mut(), ch));
     }
+    // resumed connections: the re-sent handshakes occupy slots of the new connection's Receive Maximum
+    rep.note("resumption: {1,2,3} unfinished handshakes (QoS 1 unacknowledged, QoS 2 before PUBREC, QoS 2 before PUBCOMP) carried into a resumed connection whose CONNACK announces Receive Maximum in {absent, 65535, k, k+1, k+3} (k = handshakes re-sent; also k-1, where only absence of panics/stalls is asserted): further publishes accepted exactly while outstanding < R, every acknowledgement of a re-sent handshake frees one slot, probe at the end");
+    #[derive(Clone, Copy, Debug, Hash, PartialEq, Eq)]
+    enum U {
+        P1,
+        P2a,
+        P2b,
+    }
+    let setups: Vec<Vec<U>> = vec![vec![U::P1], vec![U::P2a], vec![U::P2b], vec![U::P1, U::P2b], vec![U::P2a, U::P1], vec![U::P1, U::P1, U::P2b], vec![U::P2b, U::P2a, U::P1]];
+    let mut ridx = 5_000_000u64;
+    for (si, setup) in setups.iter().enumerate() {
+        let k = setup.len() as u16;
+        let mut r2s: Vec<Option<u16>> = vec![None, Some(65535), Some(k), Some(k + 1), Some(k + 3)];
+        if k >= 2 {
+            r2s.push(Some(k - 1));
+        }
+        for r1 in [None, Some(4u16)] {
+            for &r2 in &r2s {
+                for finished_before in [0usize, 2] {
+                    let id = format!("resume:{si}:{:?}:{:?}:{finished_before}", r1, r2);
+                    ridx += 1;
+                    if !rep.take(ridx, &id) {
+                        continue;
+                    }
+                    let mut rng = Rng::new(rep.seed.wrapping_mul(131).wrapping_add(ridx));
+                    let mut w = World::boot(WorldCfg { seed: rep.seed, receive_max: r1, sei: Some(3600), h3: true, ..Default::default() });
+                    // some completed exchanges first (their slots are free again)
+                    for j in 0..finished_before {
+                        let i = w.start(0, if j == 0 { Kind::Pub1 } else { Kind::Pub2 });
+                        w.settle_check();
+                        w.deliver_ack(i, 1, 0, 0);
+                        w.settle_check();
+                        if w.m[i].kind == Kind::Pub2 {
+                            w.deliver_ack(i, 2, 0, 0);
+                            w.settle_check();
+                        }
+                    }
+                    for u in setup {
+                        let i = w.start(0, if *u == U::P1 { Kind::Pub1 } else { Kind::Pub2 });
+                        w.settle_check();
+                        if *u == U::P2b {
+                            w.deliver_ack(i, 1, 0, 0);
+                            w.settle_check();
+                        }
+                    }
+                    w.eof();
+                    w.settle_check();
+                    let resumed = w.resume_full(ResumeOpts { secs_ago: 1, sei: Some(3600), receive_max: r2, ..Default::default() });
+                    w.settle_check();
+                    if resumed && !w.blind {
+                        // up to 4 further publishes: accepted exactly while outstanding < R
+                        for j in 0..4 {
+                            w.start(0, if j % 2 == 0 { Kind::Pub1 } else { Kind::Pub2 });
+                            w.settle_check();
+                        }
+                        // acknowledge everything in PRNG order (re-sent handshakes included), one more publish after each
+                        let mut guard = 0;
+                        loop {
+                            let mut ackable = w.ackable();
+                            if ackable.is_empty() || w.blind || guard > 60 {
+                                break;
+                            }
+                            let (i, st) = ackable.swap_remove(rng.below(ackable.len()));
+                            w.deliver_ack(i, st, [0usize, 0, 3][rng.below(3)], (rng.next() % 2) as u8);
+                            w.settle_check();
+                            if guard < 3 {
+                                w.start(0, Kind::Pub1);
+                                w.settle_check();
+                            }
+                            guard += 1;
+                        }
+                        probe_and_report(rep, &mut w, &id);
+                    }
+                    finish(&mut w);
+                    rep.add("evaluations", 1);
+                    rep.add("resumption_quota_cases", 1);
+                    if w.quota_fuzzy {
+                        rep.add("resumption_cases_with_receive_maximum_below_resent_handshakes", 1);
+                    }
+                    rep.distinct(&("resume", si, r1, r2, finished_before));
+                    if harvest(rep, &mut w, &id) == 0 {
+                        rep.sample(|| format!("{id}: {:?} re-sent under Receive Maximum {:?}; {} accepts, {} refusals, {} slot releases", setup, r2, w.counters.quota_accepts, w.counters.quota_refusals, w.counters.slot_releases));
+                    }
+                    add_counters(rep, &w);
+                }
+            }
+        }
+    }
+    // auxiliary (outside the stated domain of conformant acknowledgements, sound on any tree that bounds the quota by R):
+    // an acknowledgement for an unknown identifier arriving while nothing is outstanding must not take slots away
+    rep.note("auxiliary: with nothing outstanding, a stray PUBACK / PUBCOMP / refusing PUBREC for an unknown identifier leaves all R slots available (R in {1,3,65535,absent}), before and after completed exchanges");
+    for (ri, r) in [Some(1u16), Some(3), Some(65535), None].iter().enumerate() {
+        for (ki, kind) in [crate::refcodec::AckKind::Puback, crate::refcodec::AckKind::Pubcomp, crate::refcodec::AckKind::Pubrec].iter().enumerate() {
+            for warm in [false, true] {
+                let id = format!("stray:{:?}:{ki}:{}", r, warm as u8);
+                ridx += 1;
+                if !rep.take(ridx, &id) {
+                    continue;
+                }
+                let mut w = World::boot(WorldCfg { seed: rep.seed, receive_max: *r, h3: true, ..Default::default() });
+                if warm {
+                    let i = w.start(0, Kind::Pub1);
+                    w.settle_check();
+                    w.deliver_ack(i, 1, 0, 0);
+                    w.settle_check();
+                }
+                w.stray_ack(*kind, 700 + ri as u16, if *kind == crate::refcodec::AckKind::Pubrec { 0x97 } else { 0 });
+                w.settle_check();
+                for j in 0..3 {
+                    let i = w.start(0, if j == 1 { Kind::Pub2 } else { Kind::Pub1 });
+                    w.settle_check();
+                    if w.m[i].req_wire.is_some() {
+                        w.deliver_ack(i, 1, 0, 0);
+                        w.settle_check();
+                        if w.m[i].kind == Kind::Pub2 {
+                            w.deliver_ack(i, 2, 0, 0);
+                            w.settle_check();
+                        }
+                    }
+                }
+                probe_and_report(rep, &mut w, &id);
+                finish(&mut w);
+                rep.add("evaluations", 1);
+                rep.add("stray_ack_quota_cases", 1);
+                rep.distinct(&("stray", ri, ki, warm));
+                harvest(rep, &mut w, &id);
+                add_counters(rep, &w);
+            }
+        }
+    }
     // fill-to-the-limit and long random histories for larger R
     let rs: Vec<Option<u16>> = vec![Some(5), Some(255), Some(256), Some(1000), Some(65535), None];
     let reps = if rep.quick() { 2 } else { 12 };
